@@ -201,6 +201,23 @@ def apply_edit(draw, s, kind, uid, protected=None):
             fs.remove(f)
             return out(["FieldRemoved"], [n, f["name"]], True)
         old = f["type"]
+        abstract = [x for x in fs if GS.named(GS.parse_t(x["type"])) in types
+                    and types[GS.named(GS.parse_t(x["type"]))]["kind"] in ("interface", "union")
+                    and s.possible(GS.named(GS.parse_t(x["type"])))]
+        if abstract and draw(st.integers(0, 2)) == 0:
+            # an abstract result type narrowed to one of its possible object types: fragments on the other possible types
+            # stop validating, so it is a change of type like any other
+            f = draw(st.sampled_from(abstract))
+            old = f["type"]
+            base = GS.named(GS.parse_t(old))
+            obj = draw(st.sampled_from(sorted(s.possible(base))))
+            new = old.replace(base, obj)
+            if not new.endswith("!") and draw(st.booleans()):
+                new += "!"
+            if not _valid_output(s, new):
+                return None
+            f["type"] = new
+            return out(["FieldChangedType"], [n, f["name"]], True, False, old.count("[") > 0)
         new = retype_variants(draw, old)
         if not _valid_output(s, new):
             return None
